@@ -1973,6 +1973,112 @@ fn replay_case(case_seed: u64, r: &mut Report) {
 
 // @@PARTS@@
 
+/// Re-opening a chain on its store (restart) - also on the images a crash inside `append`
+/// leaves behind, where the persisted height is behind the stored blocks (block written, height
+/// not yet) - and continuing to commit must still yield one sequence in which every block names
+/// the hash of its predecessor.
+fn reopen_case(case_seed: u64, r: &mut Report) {
+    let mut rng = Rng::new(case_seed);
+    let replay = json!({"part": "reopen", "case_seed": case_seed});
+    let key = [(case_seed % 250) as u8 + 1; 32];
+    let mk = |store: TensorStore| {
+        let cfg = ChainConfig::new("n").with_auto_merge_config(AutoMergeConfig::disabled());
+        TensorChain::with_identity(store, cfg, Identity::from_bytes(&key).expect("identity"))
+    };
+    let chain = mk(TensorStore::new());
+    if let Err(e) = chain.initialize() {
+        r.violation("reopen:initialize-failed", format!("{}", e), replay);
+        return;
+    }
+    let mut g = Gen { rng: rng.fork(5), uniq: 0 };
+    let mut model = Model::default();
+    let mut blocks: Vec<Vec<Transaction>> = vec![vec![]];
+    let mut commit_some = |chain: &TensorChain, n: usize, tag: &str, blocks: &mut Vec<Vec<Transaction>>, model: &mut Model, g: &mut Gen| -> Result<(), String> {
+        for bi in 0..n {
+            let ws = chain.begin().map_err(|e| format!("begin: {}", e))?;
+            let ops: Vec<Transaction> = (0..1 + g.rng.below(4)).map(|_| g.op(&format!("{}{}", tag, bi), model)).collect();
+            for o in &ops {
+                ws.add_operation(o.clone()).map_err(|e| format!("add_operation: {}", e))?;
+                model_apply(model, o);
+            }
+            chain.commit(&ws).map_err(|e| format!("commit of block {}: {}", chain.height() + 1, e))?;
+            blocks.push(ops);
+        }
+        Ok(())
+    };
+    let n1 = 1 + rng.below(5);
+    if let Err(e) = commit_some(&chain, n1, "a", &mut blocks, &mut model, &mut g) {
+        r.violation("reopen:building-the-chain-failed", e, replay);
+        return;
+    }
+    let rounds = 1 + rng.below(3);
+    let mut cur = chain;
+    let mut shape = Vec::new();
+    for round in 0..rounds {
+        // the image a restart finds: the store as it is, with the persisted height exact, behind
+        // the stored blocks (crash between writing block N and writing height N) or ahead of them
+        let bytes = match cur.store().snapshot_bytes() {
+            Ok(b) => b,
+            Err(e) => {
+                r.inconclusive(&format!("snapshot_bytes failed: {}", e));
+                return;
+            }
+        };
+        let store = TensorStore::new();
+        if let Err(e) = store.restore_from_bytes(&bytes) {
+            r.inconclusive(&format!("restore_from_bytes failed: {}", e));
+            return;
+        }
+        let h = cur.height();
+        let skew: i64 = match rng.below(5) {
+            0 => 0,
+            1 | 2 => -1 - rng.below(2.min(h as usize).max(1)) as i64,
+            3 => 1 + rng.below(2) as i64,
+            _ => -(h as i64),
+        };
+        let persisted = (h as i64 + skew).max(0) as u64;
+        let mut meta = TensorData::new();
+        meta.set("height", TensorValue::Scalar(ScalarValue::Int(persisted as i64)));
+        let _ = store.put("chain:meta", meta);
+        shape.push(format!("reopen(height {} persisted as {})", h, persisted));
+        r.count(if persisted < h { "reopen_height_behind" } else if persisted > h { "reopen_height_ahead" } else { "reopen_height_exact" }, 1);
+        drop(cur);
+        cur = mk(store);
+        if let Err(e) = cur.initialize() {
+            r.violation("reopen:initialize-failed-on-existing-chain", format!("{} after {:?}", e, shape), replay);
+            return;
+        }
+        if let Err((sig, d)) = walk_chain(&cur, &blocks) {
+            r.violation(format!("reopen:after-initialize:{}", sig), format!("{} after {:?}", d, shape), replay);
+            return;
+        }
+        let n = 1 + rng.below(3);
+        if let Err(e) = commit_some(&cur, n, &format!("r{}", round), &mut blocks, &mut model, &mut g) {
+            r.violation("reopen:commit-refused-after-reopen", format!("{} after {:?}", e, shape), replay);
+            return;
+        }
+        shape.push(format!("commit x{}", n));
+        if let Err(e) = cur.verify() {
+            r.violation("reopen:verify-fails-after-commits-on-reopened-chain", format!("verify() = Err({}) after {:?}", e, shape), replay);
+            return;
+        }
+        if let Err((sig, d)) = walk_chain(&cur, &blocks) {
+            r.violation(format!("reopen:after-commits:{}", sig), format!("{} after {:?}", d, shape), replay);
+            return;
+        }
+        if let Err(e) = check_store(cur.store(), &model) {
+            r.violation("reopen:store-differs-from-block-order-application", format!("{} after {:?}", e, shape), replay);
+            return;
+        }
+        r.count("reopen_rounds", 1);
+    }
+    r.count("reopen_cases", 1);
+    r.eval(hash_str(&shape.join(";")), true);
+    if r.want_sample() {
+        r.sample(json!({"part": "reopen", "shape": shape, "height": cur.height()}));
+    }
+}
+
 fn main() {
     let args = Args::parse();
     let started = Instant::now();
@@ -1998,6 +2104,7 @@ fn main() {
             "seq" => seq_case(cs, &mut total),
             "tamper" => tamper_case(cs, &mut total),
             "replay" => replay_case(cs, &mut total),
+            "reopen" => reopen_case(cs, &mut total),
             "concurrent" => {
                 // the configuration and the hook-level schedule are replayed exactly; what happens
                 // between the hook and the append is decided by the OS scheduler, so the case is
@@ -2026,6 +2133,10 @@ fn main() {
             let rep = par_cases(args.threads.min(8), args.seed ^ 0x4E, args.by_tier(500, 20_000), args.budget(20, 200), |_i, s, r| replay_case(s, r));
             total.merge(rep);
         }
+        if on("reopen") {
+            let rep = par_cases(args.threads, args.seed ^ 0x0E, args.by_tier(1_500, 40_000), args.budget(8, 90), |_i, s, r| reopen_case(s, r));
+            total.merge(rep);
+        }
         if on("tamper") {
             let rep = par_cases(args.threads, args.seed ^ 0x7A, args.by_tier(48, 2_000), args.budget(15, 150), |_i, s, r| tamper_case(s, r));
             total.merge(rep);
@@ -2043,13 +2154,16 @@ fn main() {
         if on("replay") {
             floors.extend([("replay_cases", 40), ("replay_blocks_applied", 100), ("replay_apply_committed_calls", 40)]);
         }
+        if on("reopen") {
+            floors.extend([("reopen_cases", 100), ("reopen_height_behind", 50), ("reopen_height_ahead", 20)]);
+        }
         if on("tamper") {
             floors.extend([("tamper_chains", 8), ("tamper_evals", 4000), ("tamper_detected", 3000), ("tamper[transplanted-validator-signature]", 50), ("tamper[validator-signatures]", 200)]);
         }
     }
     let meta = Meta {
         property: "C16",
-        rule: "seq: one evaluation = one random program (12-41 calls of begin/add_operation/set delta/commit/rollback/append_block over <=4 open workspaces, auto-merge on/off, block size limit; one commit in five runs while the proposer's key is absent from the validator registry, so it is refused by append AFTER its writes were applied, often with blocks of other workspaces committed since its begin; appended blocks may carry validator endorsements) judged after EVERY call (verify() passes, height = accepted blocks, user keys of the store = block-order application of committed transactions, failed commit / rollback leave the full store dump and height/tip identical) and at the end (stored blocks walked through get_block, history()); distinct by the hash of the call/outcome trace, non-trivial if workspaces overlapped and at least one block was committed. tamper: one evaluation = one (stored block, mutation) pair on a 4-7 block chain built by commit/append_block with three registered validators, at least two blocks carrying validator endorsements (add_signature); mutations include every single field of header, transactions and endorsement entries, and every signed element (endorsement entry, endorsement list, proposer signature, header, transactions) moved in from ANOTHER stored block; the altered record is written through the underlying store and verify() must fail; distinct by (scope, field class, variant, how the block was produced, tip/inner); every evaluated mutation changes the stored bytes and the decoded block. concurrent: one evaluation = 2-4 prepared workspaces committed from as many threads (keys disjoint/shared/mixed, deltas none/orthogonal/conflicting/mixed, auto-merge on/off, 0-2 prior blocks; each committer with probability 1/4 fails late: the proposer key is removed from the registry when it reaches the hook and registered again when its call has returned), either started together with jitter at the hook or parked at chain_commit:after_preimage and released singly / in groups in a seeded order; judged at quiescence (verify(), every block after the prefix = whole committed workspaces, each committed workspace in exactly one block, height = successful non-empty commits, stored chain walk, store = block-order application, single-writer keys present, failed writers invisible); distinct by configuration + schedule + outcomes + invocation/response order, non-trivial if at least two commit calls overlapped in real time. replay: one evaluation = one block sequence (2-6 blocks, optionally preceded by malformed variants) applied to two fresh replicas through TensorStateMachine::apply_block or a Raft follower + apply_committed; accept/reject decisions and compute_state_root after every entry must agree between replicas, well-formed blocks must be accepted, replica user keys = block-order application; non-trivial if >= 2 blocks were applied.",
+        rule: "seq: one evaluation = one random program (12-41 calls of begin/add_operation/set delta/commit/rollback/append_block over <=4 open workspaces, auto-merge on/off, block size limit; one commit in five runs while the proposer's key is absent from the validator registry, so it is refused by append AFTER its writes were applied, often with blocks of other workspaces committed since its begin; appended blocks may carry validator endorsements) judged after EVERY call (verify() passes, height = accepted blocks, user keys of the store = block-order application of committed transactions, failed commit / rollback leave the full store dump and height/tip identical) and at the end (stored blocks walked through get_block, history()); distinct by the hash of the call/outcome trace, non-trivial if workspaces overlapped and at least one block was committed. tamper: one evaluation = one (stored block, mutation) pair on a 4-7 block chain built by commit/append_block with three registered validators, at least two blocks carrying validator endorsements (add_signature); mutations include every single field of header, transactions and endorsement entries, and every signed element (endorsement entry, endorsement list, proposer signature, header, transactions) moved in from ANOTHER stored block; the altered record is written through the underlying store and verify() must fail; distinct by (scope, field class, variant, how the block was produced, tip/inner); every evaluated mutation changes the stored bytes and the decoded block. concurrent: one evaluation = 2-4 prepared workspaces committed from as many threads (keys disjoint/shared/mixed, deltas none/orthogonal/conflicting/mixed, auto-merge on/off, 0-2 prior blocks; each committer with probability 1/4 fails late: the proposer key is removed from the registry when it reaches the hook and registered again when its call has returned), either started together with jitter at the hook or parked at chain_commit:after_preimage and released singly / in groups in a seeded order; judged at quiescence (verify(), every block after the prefix = whole committed workspaces, each committed workspace in exactly one block, height = successful non-empty commits, stored chain walk, store = block-order application, single-writer keys present, failed writers invisible); distinct by configuration + schedule + outcomes + invocation/response order, non-trivial if at least two commit calls overlapped in real time. reopen: one evaluation = a chain of 1-5 committed blocks whose store image is re-opened 1-3 times by a new TensorChain with the same identity (persisted height exact / 1-2 behind the stored blocks, as after a crash between writing a block and writing the height / 0 / ahead), walked, extended by 1-3 commits, then verify(), the stored-chain walk (each prev_hash = hash of predecessor, tip hash) and store = block-order application are judged. replay: one evaluation = one block sequence (2-6 blocks, optionally preceded by malformed variants) applied to two fresh replicas through TensorStateMachine::apply_block or a Raft follower + apply_committed; accept/reject decisions and compute_state_root after every entry must agree between replicas, well-formed blocks must be accepted, replica user keys = block-order application; non-trivial if >= 2 blocks were applied.",
         assumptions: vec![
             "auto-merge uses an unbounded merge window (u64::MAX) or is disabled, so no verdict depends on the 100 ms wall-clock default".into(),
             "compare-and-swap transactions are generated with a non-empty expectation only (the behaviour for an absent key and an empty expectation is not specified)".into(),
